@@ -1,6 +1,6 @@
 """Configuration of ./check C12 (see cfg/README)."""
 
-PROP = {'drive': ['Metrics'], 'harness_files': ['area_metrics.go', 'area_metrics_os2.go', 'area_metrics_q.go', 'area_metrics_alias.go'], 'modules': ['SfntV.Props.C12'],
+PROP = {'drive': ['Metrics'], 'harness_files': ['area_metrics.go', 'area_metrics_os2.go', 'area_metrics_q.go', 'area_metrics_alias.go', 'area_metrics_cid.go'], 'modules': ['SfntV.Props.C12'],
  'required_theorems': ['C12_hmtx_roundtrip',
                        'C12_hmtx_encode_ok',
                        'C12_hmtx_roundtrip_any_k',
@@ -30,6 +30,7 @@ PROP = {'drive': ['Metrics'], 'harness_files': ['area_metrics.go', 'area_metrics
                        'C12_fontbboxpdf_image',
                        'C12_extent_encloses',
                        'C12_glyphbboxpdf_image',
+                       'C12_glyphbboxpdf_cid',
                        'C12_cff_fractional_extends',
                        'C12_fixedpitch_written'],
  'areas': [('metrics', 400, 6000)],
@@ -43,7 +44,7 @@ PROP = {'drive': ['Metrics'], 'harness_files': ['area_metrics.go', 'area_metrics
              'metric queries in PDF units are modelled over exact rationals; theorems cover uniform positive '
              'font matrices [s 0 0 s 0 0] (FontBBoxPDF image) and matrices without shear product (widths); the '
              'per-glyph GlyphBBoxPDF is proved for every matrix (C12_glyphbboxpdf_image) and judged on the real '
-             'code by D metrics.dbboxpdf; the FontBBoxPDF = image-of-FontBBox theorem needs a uniform matrix; CID-keyed CFF fonts (per-FD matrices), WidthsMapPDF and GlyphWidth are not modelled',
+             'code by D metrics.dbboxpdf; the FontBBoxPDF = image-of-FontBBox theorem needs a uniform matrix; CID-keyed CFF fonts: per-glyph GlyphBBoxPDF / GlyphWidthPDF under FD.Mul(fm) are proved (C12_glyphbboxpdf_cid) and, with FontBBoxPDF, WidthsPDF, GlyphWidth and WidthsMapPDF (nil), judged on the real code by D metrics.dcid; WidthsPDF of a CID font ignores the FD matrix (w*fm[0]) - mirrored, not judged against a definition',
              'float evaluation of the queries is compared after rounding to 2^-20; near-ties are detected with '
              'exact arithmetic in the harness and sent as diagnostics only',
              'fractional CFF widths: the writer model (int(w), funit.Int16(w), |width-w| >= 0.5) is V-streamed '
